@@ -13,6 +13,16 @@ DEFAULT_WORK_START_HOUR = 9
 DEFAULT_WORK_END_HOUR = 17  # 5pm, so hours 9,10,11,12,13,14,15,16 are working (8 hours)
 
 
+def _shiftDate(date: datetime, hours: float) -> datetime:
+    """date + hours; a gap of thousands of years ends at the first/last date a datetime can hold."""
+    from datetime import timedelta
+
+    try:
+        return date + timedelta(hours=hours)
+    except OverflowError:
+        return datetime.max if hours > 0 else datetime.min
+
+
 class TaskScenario(ScenarioData):
     def __init__(self, task: "PropertyTreeNode", scenarioIdx: int, attributes: dict[str, Any]) -> None:
         super().__init__(task, scenarioIdx, attributes)
@@ -404,7 +414,7 @@ class TaskScenario(ScenarioData):
             # So we want end time between (successor_earliest - maxgap_hours) and (successor_earliest - gap_hours)
             # Ideally, end exactly at successor_earliest - gap_hours to minimize gap
 
-            desired_end = successor_earliest - timedelta(hours=gap_hours)
+            desired_end = _shiftDate(successor_earliest, -gap_hours)
 
             # Work backwards from desired_end to find required start
             # For effort-based tasks, we need 'effort' hours of work before desired_end
@@ -529,9 +539,7 @@ class TaskScenario(ScenarioData):
                             if gapduration:
                                 # gapduration is calendar time (e.g., "4h" = 4 hours)
                                 gap_hours = self._parse_duration(gapduration, calendar=True)
-                                from datetime import timedelta
-
-                                dep_time = dep_time + timedelta(hours=gap_hours)
+                                dep_time = _shiftDate(dep_time, gap_hours)
                             elif gaplength:
                                 # gaplength is working time - need to find next working slot after gap
                                 gap_hours = self._parse_duration(gaplength)
@@ -609,9 +617,7 @@ class TaskScenario(ScenarioData):
                                 # Apply gapduration - A must end (gapduration) before B starts
                                 if gapduration:
                                     gap_hours = self._parse_duration(gapduration, calendar=True)
-                                    from datetime import timedelta
-
-                                    pred_start = pred_start - timedelta(hours=gap_hours)
+                                    pred_start = _shiftDate(pred_start, -gap_hours)
                                 if pred_start < latest_end:
                                     latest_end = pred_start
 
@@ -623,9 +629,7 @@ class TaskScenario(ScenarioData):
                             # This task must end gapduration before the successor starts
                             gap_hours = self._successorGapHours(successor)
                             if gap_hours:
-                                from datetime import timedelta
-
-                                succ_start = succ_start - timedelta(hours=gap_hours)
+                                succ_start = _shiftDate(succ_start, -gap_hours)
                         if succ_start and succ_start < latest_end:
                             latest_end = succ_start
 
